@@ -518,9 +518,9 @@ func (g *progGen) helper(depth int) string {
 func progFixedFiles() map[string]string {
 	return map[string]string{
 		"/macros.tpl": `{% macro imp_box(v) export %}[{{ v }}{{ name }}]{% endmacro %}{% macro imp_row(a, b=n) export %}({{ a }}:{{ b }}){% endmacro %}`,
-		"/part.tpl":   `part[{{ name }}|{{ n }}]`,
+		"/part.tpl":   `part[{{ name }}|{{ n }}{{ opt }}]`, // (opt: a context entry only some executions have)
 		"/plain.txt":  `plain {{ not_evaluated }} text`,
-		"/lazy.tpl":   `lazy[{{ name|upper }}{% for i in nums %}{{ i }}{% endfor %}]`,
+		"/lazy.tpl":   `lazy[{{ name|upper }}{% for i in nums %}{{ i }}{% endfor %}{{ opt }}]`,
 	}
 }
 
@@ -546,6 +546,13 @@ func genProgramWith(t *rapid.T, o progOpts, extraNames []string) *Program {
 		g.files["/base.tpl"] = "BASE[\n  {% block content %}\n\nbase-content{{ name }}{% for w in words %}{{ w }}{% endfor %}{% endblock %}\n\n|\t{% block side %}\n {{ name }}{% endblock %}\n]" + g.text()
 		over := "{% block content %}" + root + "{% if flag %}{{ block.Super }}{% else %}{{ block.Super|add:name }}{% endif %}{{ block.Super + name }}{{ html + block.Super }}{% endblock %}"
 		// blocks generated inside root are nested in 'content': fine (fresh names)
+		if o.includes && drawInt(t, 0, 2, "sibling") == 0 {
+			// another child of the same parent, pulled in by a name computed at run time (so it is
+			// compiled while the root, a child of that parent too, is being executed)
+			g.files["/kid.tpl"] = `{% extends "/base.tpl" %}{% block side %}kid-side{{ n }}{% endblock %}`
+			over += `{% block sibling %}({% include kidname %}){% endblock %}`
+			g.files["/base.tpl"] += "{% block sibling %}{% endblock %}"
+		}
 		root = `{% extends "/base.tpl" %}` + over
 	}
 	g.files["/root.tpl"] = root
@@ -624,6 +631,7 @@ func progContext(variant int, ts *tickState) pongo2.Context {
 		"pairs":     []any{1, "two", 3.5, nil},
 		"nested":    map[string]any{"inner": map[string]any{"x": "deep"}},
 		"incname":   []string{"/lazy.tpl", "/lazy.tpl", "/part.tpl"}[variant%3],
+		"kidname":   "/kid.tpl",
 		"maybeinc":  []string{"/nosuch.tpl", "/lazy.tpl", "/part.tpl", "/nosuch2.tpl"}[variant%4],
 		"greet":     func(s string) string { return "hey " + s },
 		"twice":     func(i int) int { return 2 * i },
